@@ -1,6 +1,7 @@
 package main
 
 import (
+	"go/types"
 	"strings"
 
 	"golang.org/x/tools/go/ssa"
@@ -221,5 +222,37 @@ func FieldT(typeFrag string, base P) P {
 			return false
 		}
 		return base(x.Args[0], b)
+	}
+}
+
+// ParamLike matches a parameter, or the local cell a parameter was spilled to
+// (a by-value parameter whose address is taken or whose fields are assigned).
+func ParamLike() P {
+	return func(x *X, _ Binds) bool {
+		x = strip(x)
+		if x == nil {
+			return false
+		}
+		if x.Op == "param" {
+			return true
+		}
+		al := x.Cell
+		if al == nil {
+			al, _ = x.V.(*ssa.Alloc)
+		}
+		if al == nil || al.Parent() == nil {
+			return false
+		}
+		for _, p := range al.Parent().Params {
+			if p.Name() == al.Comment && types.Identical(p.Type(), deref(al.Type())) {
+				// the spill: stored once from the parameter in the entry block
+				for _, in := range al.Parent().Blocks[0].Instrs {
+					if st, ok := in.(*ssa.Store); ok && st.Addr == ssa.Value(al) && st.Val == ssa.Value(p) {
+						return true
+					}
+				}
+			}
+		}
+		return false
 	}
 }
